@@ -198,7 +198,7 @@ impl Property for C03 {
         1600
     }
     fn quick_cases(&self) -> u64 {
-        12_000
+        120_000
     }
     fn states_termination(&self) -> bool {
         true
